@@ -271,7 +271,8 @@ impl<F: Float, D: Distance<F>, N: NearestNeighbour> OpticsValidParams<F, D, N> {
     ) -> Vec<Sample<F>> {
         // Unwrap here is fine because we don't expect any dimension mismatch when calling
         // within_range with points from the observations
-        nn.within_range(candidate, self.tolerance())
+        let mut neighbors: Vec<_> = nn
+            .within_range(candidate, self.tolerance())
             .unwrap()
             .into_iter()
             .map(|(pt, index)| Sample {
@@ -279,7 +280,12 @@ impl<F: Float, D: Distance<F>, N: NearestNeighbour> OpticsValidParams<F, D, N> {
                 reachability_distance: Some(self.dist_fn().distance(pt, candidate)),
                 core_distance: None,
             })
-            .collect()
+            .collect();
+        // Not every nearest neighbour index returns the points ordered by distance (the linear
+        // search returns them in dataset order), but the core distance is read off the
+        // `min_points`-th entry
+        neighbors.sort();
+        neighbors
     }
 
     /// Set the core distance given the minimum points in a cluster and the points neighbors
